@@ -95,7 +95,9 @@ CLAIMS.update({
         text='R-LOCKSET (queue and counter only under _m, jobs Called/Dropped with _m released, lock pairing on every '
              'path incl. unique_lock moved into Stop), R-LINEAR (Submit: Drop xor enqueue; Loop/HardStop finish each '
              'popped node once), R-DRAIN (a worker returns only after seeing the queue empty under the same lock hold; '
-             'only Stop(unique_lock&&) sets the stopped bit). Quiescence after Wait for all schedules is not decided.',
+             'only Stop(unique_lock&&) sets the stopped bit), R-COUNT (packed job counter: unit == 1 << NoJobs shift, flag '
+             'bits below it, +unit exactly on the accepted path, -unit after every Called job before the count is read '
+             'again, no other writer). Quiescence after Wait for all schedules is not decided.',
         technique='lockset dataflow per CFG path with RAII/moved-lock modelling and helper inlining',
         design='4/C08'),
     'C12': dict(
